@@ -38,6 +38,15 @@ MANIFEST_ENTRY = {
 }
 PROP_FILES = ["DashLive/Props/C01.lean"]
 LEAN_TARGETS = ["DashLive.Props.C01"]
+
+
+def _gen_options():
+    """Props/C01.lean reads the default leeway from the option-registry table (C07's translator)"""
+    import gen_options
+    gen_options.main()
+
+
+GENERATORS = [_gen_options]
 TRUSTED = [
     "harness/segwalk.py (client-side MPD reading incl. the ISO/IEC 23009-1 5.3.9.5.3 window), mp4walk, mp4synth, /verif/shims",
     "timescale_to_timedelta (float) is a model parameter fed with the implementation's value; ConvSpec (within 1 us) is checked on every value used",
